@@ -47,6 +47,22 @@ theorem C06_transparent (n : Nat) (s body rest : Bytes) (h : Terminated s body r
   subst ho'
   exact ⟨by simpa using ho.symm, hr⟩
 
+/-- **C06_eof_is_sticky.**  A reader that has reported the end of the message keeps reporting it — nothing read, nothing taken off
+    the stream — whatever its size budget says: a message of exactly the maximum size looks to a backend that reads once more (a
+    `bufio` wrapper, a second `ReadAll`) exactly like the same message without a limit.  (Before the repair recorded in
+    known_findings.json the second read of an exactly-N message returned "too large", which a backend that propagates reader errors
+    turned into 552 for a legal message.) -/
+theorem C06_eof_is_sticky (r : DR) (inp : Bytes) (k : Nat) (h : r.state = .eof) :
+    DataReader.read r inp k = (r, [], inp, .eof) := by
+  have hrl : ∀ j, readLoop St.eof inp j = (St.eof, [], inp) := by
+    intro j; cases j <;> simp [readLoop]
+  unfold DataReader.read
+  simp only [h, bne_self_eq_false, Bool.and_false, Bool.false_eq_true, if_false, hrl, List.length_nil, beq_self_eq_true, if_true]
+  cases r
+  simp_all
+
+example : (DataReader.read { state := .eof, limited := true, n := 0 } "NOOP\r\n".b 4).2.2.2 = .eof := by decide +kernel
+
 /-- non-vacuity: exactly-`n`, below and above, with the same 5-octet message -/
 example :
     let s := "abc\r\n.\r\nNOOP\r\n".b
